@@ -1202,6 +1202,7 @@ def run(ctx):
                 "re-exchanges with a CHANGED server key (another type after a change of the client's preference, a rotated key "
                 "of the same type, mixed; valid signatures) with the reported key and an independent signature check after "
                 "every exchange; engine scenarios run with no / the same / another host key already on record. "
+                "a rogue server omitting parts of a re-exchange (bare NEWKEYS; KEXINIT then NEWKEYS). "
                 "Transport.connect over all 64 option combinations x 2 server key types (hostkey absent / same / "
                 "other of the same type / other type; pkey, password, gss_auth, gss_kex) with recording auth_* "
                 "methods. distinct = distinct (engine, role, packets) / (kex, algorithm, edit); non-trivial = a complete "
@@ -1247,7 +1248,10 @@ META = {
               "exchange is the key verified in THAT exchange, whatever key was on record before and whatever happened "
               "earlier on the connection (published_key_is_verified_key, published_key_follows_every_exchange; source "
               "fact checked every run: the only assignment outside __init__ is the unconditional last statement of "
-              "_verify_key). [connect:] raises whenever the key shown differs from k (unless GSS-API kex was requested), independently of "
+              "_verify_key). for EVERY order of engine steps and NEWKEYS messages the number of exchanges reported complete never exceeds "
+              "the number in which the signature was verified, and a NEWKEYS with no verified secret pending ends the "
+              "session (completed_le_verified, bare_newkeys_ends_session; source fact: _parse_newkeys calls "
+              "_activate_inbound unconditionally before the completion statements). [connect:] raises whenever the key shown differs from k (unless GSS-API kex was requested), independently of "
               "which credentials were passed, and authenticates/returns only if the pin holds. Tied to the real engines by "
               "exact comparison of every transport call and every hashed byte string, every engine class, both roles, "
               "including a peer's point in its alternative valid encoding: the hash covers the octets AS RECEIVED (also "
